@@ -113,6 +113,7 @@ type Exec struct {
 	uniqCache   map[string]bool
 	sizes       types.Sizes
 	fresh       int
+	badPartial  bool // set by readerContent: the failing stream delivers part of its payload before it fails
 }
 
 func New(prog *ssa.Program, pkg *ssa.Package, solverName string, timeoutMs int) (*Exec, error) {
